@@ -42,4 +42,4 @@ Check C10_cancel_isolated :
 Check C10_pipeline_order :
   forall (isq : value -> bool) (A : Type) (handle : value -> A) (cs1 cs2 : list bytes),
   concat cs1 = concat cs2 ->
-  map handle (fst (run_nocap isq ([], 0%nat, CNeedMore) cs1)) = map handle (fst (run_nocap isq ([], 0%nat, CNeedMore) cs2)).
+  map handle (fst (conn_run isq conn_init cs1)) = map handle (fst (conn_run isq conn_init cs2)).
